@@ -246,6 +246,7 @@ def run(ctx, rep):
         else:
             rep.violated("C04/areagate", "the area only gates the documented rejection", construct=where,
                          why=tm.show(bad_gate, 4))
+    by_source_priority(ctx, rep)
     rep.analysed = {"balance_leaves": n_tot, "balance_m2_leaves": n_m2}
     rep.floor("balance-leaves", n_tot, 100)
     rep.floor("balance-m2-leaves", n_m2, 100)
@@ -302,3 +303,69 @@ def option_parts(t):
     """(is_some condition, payload) of an Option-valued term."""
     from epbd.models import opt_is_some, opt_val
     return opt_is_some(t), opt_val(t)
+
+
+def annual_is_sum(A, bc, both):
+    """epus_an = Σ_t epus_t and the per-source annual values are the sums of their per-step vectors."""
+    from .c12 import entry
+    try:
+        ok = A.assume_conditions(A.scalar(get(bc, "prod", "epus_an")), both) == \
+            A.assume_conditions(A.sumt(A.pw(get(bc, "prod", "epus_t"))), both)
+        for src in ("EL_INSITU", "EL_COGEN"):
+            _, an = entry(get(bc, "prod", "epus_by_src_an"), src)
+            _, t = entry(get(bc, "prod", "epus_by_src_t"), src)
+            ok = ok and A.assume_conditions(A.scalar(an), both) == A.assume_conditions(A.sumt(A.pw(t)), both)
+        return ok
+    except (alg.NotScalar, AttributeError):
+        return False
+
+
+def by_source_priority(ctx, rep):
+    """Breakdown by source where sources have priorities (electricity with on-site and cogenerated
+    production): the per-source used production adds up to the total, per step and over the year, in
+    both load-matching modes.  (The proportional branch is not decided: below the documented 1e-3
+    production threshold it deliberately assigns nothing.)"""
+    from .c12 import entry
+    for lm in (False, True):
+        e = epmodel.ep(ctx, lm)
+        where = loc_of(e.body)
+        A = alg.Algebra()
+        l1_t = False
+        bc = [x for x in e.carriers() if x[1] == "ELECTRICIDAD"][0][3]
+        pI, _PI = entry(get(bc, "prod", "by_src_t"), "EL_INSITU")
+        pC, _PC = entry(get(bc, "prod", "by_src_t"), "EL_COGEN")
+        both = [pI, pC]
+        # L1 (hand-proved, a, p1, p2 >= 0): min(a, p1 + p2) = min(p1, a) + min(p2, a - min(p1, a)); so a total
+        # written as f*min(use, P_insitu + P_cogen) is accepted when the parts are f*u1 and f*u2
+        use = A.pw(get(bc, "used", "epus_t"))
+        f = A.pw(get(bc, "f_match"))
+        p1, p2 = A.pw(_PI), A.pw(_PC)
+        u1 = A.pmin(p1, use)
+        u2 = A.pmin(p2, alg.padd(use, u1, -1))
+        for suffix, lift in (("_t", A.pw), ("_an", A.scalar)):
+            try:
+                _, eI = entry(get(bc, "prod", "epus_by_src" + suffix), "EL_INSITU")
+                _, eC = entry(get(bc, "prod", "epus_by_src" + suffix), "EL_COGEN")
+                parts = alg.padd(A.assume_conditions(lift(eI), both), A.assume_conditions(lift(eC), both))
+                tot = A.assume_conditions(lift(get(bc, "prod", "epus" + suffix)), both)
+            except alg.NotScalar as ex:
+                rep.underivable("C04/bysrc/priority/epus%s/lm=%d" % (suffix, lm), "used production = Σ over sources of the used parts",
+                                construct=where, why=str(ex))
+                continue
+            key = "C04/bysrc/priority/epus%s/lm=%d" % (suffix, lm)
+            ok_l1 = False
+            if suffix == "_t":
+                gI = A.assume_conditions(lift(eI), both)
+                gC = A.assume_conditions(lift(eC), both)
+                ptot = A.pw(get(bc, "prod", "t"))      # = p1 + p2 by C01/O8
+                ok_l1 = (tot in (alg.pmul(f, A.pmin(use, alg.padd(p1, p2))), A.assume_conditions(alg.pmul(f, A.pmin(use, ptot)), both), A.assume_conditions(alg.pmul(f, A.pmin(ptot, use)), both))
+                         and gI == alg.pmul(f, u1) and gC == alg.pmul(f, u2))
+                l1_t = ok_l1
+            else:
+                ok_l1 = l1_t and annual_is_sum(A, bc, both)
+            if tot == parts or ok_l1:
+                rep.discharged(key, "with both electricity sources present, used production = on-site part + cogenerated part",
+                               derivation="normal forms equal under [both sources present]")
+            else:
+                rep.violated(key, "the by-source breakdown of the produced energy used on site adds up to the total", construct=where,
+                             why="total - Σ parts = %s" % A.show(alg.padd(tot, parts, -1), 3)[:400])
